@@ -394,7 +394,13 @@ def _sym_int(x=0, *a):
         n0 = sym.num_of(z3.simplify(x.e))
         if n0 is not None:
             return int(n0)
+        # one truncation variable per expression (the same real truncated twice is the same integer: stated by construction rather than left to the solver)
+        memo = run.__dict__.setdefault("trunc_memo", {})
+        key = x.e.sexpr()
+        if key in memo:
+            return sym.SInt(memo[key])
         k = run.fresh("trunc", "int")
+        memo[key] = k
         e = x.e
         kr = z3.ToReal(k)
         run.add_def(k, z3.If(e >= 0, z3.And(kr <= e, e < kr + 1), z3.And(kr >= e, e > kr - 1)))
